@@ -17,6 +17,14 @@
 (*   FixF9 = FALSE : with a promise set, AwaitWithErrCh / AwaitWithCancelCh wait on          *)
 (*                   (ctx, replacement, result) only; TRUE: also on their own channel.       *)
 (*                                                                                          *)
+(*   FixO6 = FALSE : a container awaiter whose inner select finds the replacement channel AND *)
+(*                   the sampled promise's done channel ready may take the result (observation *)
+(*                   O6 below; the code re-checks the replacement channel only for a result    *)
+(*                   whose error is context.Canceled);  TRUE (specs/promise/proposed-fix-3.diff,*)
+(*                   not applied): it re-checks after every return of the inner await and      *)
+(*                   follows the replacement.  With FixO6 the monitor is told "coarse" even in  *)
+(*                   the Fine model: the sharper `late` reading then holds in every            *)
+(*                   interleaving.                                                             *)
 (*   Fine  = TRUE  : the granularity of sched.Exec.ParkUnl executions: the END of a critical  *)
 (*                   section is a scheduling point too, i.e. the logged return of SetPromise / *)
 (*                   container.SetResult is a step of its own (ReplRet), steps after the       *)
@@ -32,7 +40,7 @@ CONSTANTS
     Proms0,      \* sequence of [r, v, e]: promise q is created resolved with (v,e) iff r
     Cur0,        \* promise initially held by the container (0 = nil)
     Prog,        \* Prog[p]: sequence of [op, q, v, e, kind, c, f]
-    FixF8, FixF9,
+    FixF8, FixF9, FixO6,
     Fine,        \* TRUE: the return of a replacement is logged in a later step than its critical section
     EagerWake    \* TRUE: selects that can fire fire before anything else (controller granularity)
 
@@ -57,7 +65,7 @@ CurId(p) == Id(p, ip[p])
 Done(p) == ip[p] > Len(Prog[p])
 
 Init ==
-    /\ PInitScenF(Proms0, Cur0, Fine)
+    /\ PInitScenF(Proms0, Cur0, Fine /\ ~FixO6)
     /\ isDone = [q \in PIds |-> Proms0[q].r]
     /\ fld = [q \in PIds |-> IF Proms0[q].r THEN <<Proms0[q].v, Proms0[q].e>> ELSE <<>>]
     /\ closed = [q \in PIds |-> Proms0[q].r]
@@ -233,7 +241,9 @@ IWakeW(p) ==
 IWakeRes(p) ==
     /\ pc[p] = "isel" /\ closed[got[p]]
     /\ LET pair == fld[got[p]] IN
-       IF pair[2] # "C" \/ ctxc[p] THEN RetAwait(p, pair)
+       IF FixO6 /\ wch[p] = "closed"      \* proposed fix 3: replaced meanwhile -> follow (or give up if cancelled)
+       THEN IF ctxc[p] THEN RetAwait(p, <<0, "C">>) ELSE Reloop(p)
+       ELSE IF pair[2] # "C" \/ ctxc[p] THEN RetAwait(p, pair)
        ELSE IF FixF8 /\ wch[p] # "closed" THEN RetAwait(p, pair)
        ELSE Reloop(p)        \* F8: nothing to wait for -> the loop spins
 IWakeCh(p) == FixF9 /\ pc[p] = "isel" /\ HasCh(p) /\ RetAwait(p, ChRet(p, TRUE))
@@ -292,7 +302,7 @@ FieldsBeforeClose == \A q \in PIds : closed[q] => fld[q] # <<>>
 \* the awaiter always wakes at the replacement; in the full interleaving it is expected and tolerated.
 \* Fine: the monitor itself applies that condition to coarse executions only (PromiseP header), so
 \* every condition must hold as it stands, in the full interleaving.
-LateRace == IF EagerWake \/ Fine THEN {} ELSE {n \in bad : Len(n) >= 21 /\ SubSeq(n, 1, 21) = "WrongResult:container"}
+LateRace == IF EagerWake \/ Fine \/ FixO6 THEN {} ELSE {n \in bad : Len(n) >= 21 /\ SubSeq(n, 1, 21) = "WrongResult:container"}
 ModelSafe == bad \ LateRace = {}
 
 \* what the pinned code is known to get wrong at quiescent points (F9)
